@@ -101,13 +101,13 @@ Qed.
 
 (* ---- flux balance ---- *)
 Definition free_pins (net : netlist K) : list spin :=
-  keep (conn_ends (conns net)) (allpins (map lst_of_comp (comps net))).
+  keep (conn_ends (conns net)) (allpins (comps net)).
 
 Lemma flux_balance (net : netlist K) (phi : spin -> K) :
-  NoDup (conn_ends (conns net)) -> NoDup (allpins (map lst_of_comp (comps net))) ->
-  (forall p, In p (conn_ends (conns net)) -> In p (allpins (map lst_of_comp (comps net)))) ->
+  NoDup (conn_ends (conns net)) -> NoDup (allpins (comps net)) ->
+  (forall p, In p (conn_ends (conns net)) -> In p (allpins (comps net))) ->
   (forall x y, In (x, y) (conns net) -> phi x + phi y == 0) ->
-  lsum K (allpins (map lst_of_comp (comps net))) phi == lsum K (free_pins net) phi.
+  lsum K (allpins (comps net)) phi == lsum K (free_pins net) phi.
 Proof.
   intros Hce Hnd Hends Hpair.
   rewrite (lsum_perm K KL _ _ phi (keep_perm _ _ Hnd Hce Hends)).
@@ -117,7 +117,7 @@ Qed.
 Lemma free_pins_spec (net : netlist K) p :
   NoDup (conn_ends (conns net)) ->
   (In p (free_pins net) <->
-   In p (allpins (map lst_of_comp (comps net))) /\ partner (conns net) p = None).
+   In p (allpins (comps net)) /\ partner (conns net) p = None).
 Proof.
   intros Hce. unfold free_pins. rewrite keep_In. split; intros [H1 H2]; split; try exact H1.
   - apply partner_none_iff. intros [x y] Hin. destruct (In_conn_ends _ _ _ Hin) as [Hx Hy].
@@ -128,49 +128,34 @@ Proof.
 Qed.
 
 (* sums over all pins, component by component *)
-Lemma lsum_allpins_0 (cl : list (comp K)) (phi : spin -> K) :
-  (forall c, In c cl -> lsum K (comp_pins c) phi == 0) ->
-  lsum K (allpins (map lst_of_comp cl)) phi == 0.
+Lemma lsum_allpins_0 (cl : list (lst K)) (phi : spin -> K) :
+  (forall L, In L cl -> lsum K (l_pins L) phi == 0) ->
+  lsum K (allpins cl) phi == 0.
 Proof.
   induction cl as [|c r IH]; intros H; unfold allpins; simpl; [reflexivity|].
   rewrite (lsum_app K KL). rewrite (H c (or_introl eq_refl)).
-  fold (allpins (map lst_of_comp r)). rewrite IH; [ring|]. intros c' Hc. apply H. right. exact Hc.
+  fold (allpins r). rewrite IH; [ring|]. intros c' Hc. apply H. right. exact Hc.
 Qed.
 
-Lemma lsum_allpins_nonneg (cl : list (comp K)) (phi : spin -> K) :
-  (forall c, In c cl -> fnonneg K (lsum K (comp_pins c) phi)) ->
-  fnonneg K (lsum K (allpins (map lst_of_comp cl)) phi).
+Lemma lsum_allpins_nonneg (cl : list (lst K)) (phi : spin -> K) :
+  (forall L, In L cl -> fnonneg K (lsum K (l_pins L) phi)) ->
+  fnonneg K (lsum K (allpins cl) phi).
 Proof.
   induction cl as [|c r IH]; intros H; unfold allpins; simpl; [apply (nonneg_0 K KL)|].
   rewrite (lsum_app K KL). apply (nonneg_add K KL); [apply H; left; reflexivity|].
-  fold (allpins (map lst_of_comp r)). apply IH. intros c' Hc. apply H. right. exact Hc.
+  fold (allpins r). apply IH. intros c' Hc. apply H. right. exact Hc.
 Qed.
 
-(* the pins of a component, indexwise *)
-Lemma comp_pins_length (c : comp K) : length (comp_pins c) = c_n c.
-Proof. unfold comp_pins. rewrite map_length, seq_length. reflexivity. Qed.
+(* a component, indexwise *)
+Definition vin (L : lst K) (a : waves K) : vec K := fun j => a (nth j (l_pins L) dpin).
 
-Lemma comp_pins_nth (c : comp K) i : (i < c_n c)%nat -> nth i (comp_pins c) dpin = (c_id c, i).
-Proof.
-  intros H. unfold comp_pins.
-  rewrite nth_indep with (d' := (c_id c, O)) by (rewrite map_length, seq_length; exact H).
-  rewrite (map_nth (fun k => (c_id c, k))). rewrite seq_nth by exact H. reflexivity.
-Qed.
+Lemma lsum_comp (L : lst K) (f : spin -> K) :
+  lsum K (l_pins L) f == bigsum (length (l_pins L)) (fun i => f (nth i (l_pins L) dpin)).
+Proof. symmetry. apply (bigsum_nth K KL). Qed.
 
-Lemma lsum_comp (c : comp K) (f : spin -> K) :
-  lsum K (comp_pins c) f == bigsum (c_n c) (fun i => f (c_id c, i)).
-Proof.
-  rewrite <- (bigsum_nth K KL). rewrite comp_pins_length. apply (bigsum_ext K KL).
-  intros i Hi. rewrite comp_pins_nth by exact Hi. reflexivity.
-Qed.
-
-Lemma Sem_comp (c : comp K) a b i : Sem (lst_of_comp c) a b -> (i < c_n c)%nat ->
-  b (c_id c, i) == mv (c_n c) (c_S c) (fun j => a (c_id c, j)) i.
-Proof.
-  intros HS Hi. unfold Sem in HS; cbn [lst_of_comp l_pins l_S] in HS. rewrite comp_pins_length in HS.
-  specialize (HS i Hi). rewrite comp_pins_nth in HS by exact Hi. rewrite HS. unfold mv.
-  apply (bigsum_ext K KL). intros j Hj. rewrite comp_pins_nth by exact Hj. reflexivity.
-Qed.
+Lemma Sem_comp (L : lst K) a b i : Sem L a b -> (i < length (l_pins L))%nat ->
+  b (nth i (l_pins L) dpin) == mv (length (l_pins L)) (l_S L) (vin L a) i.
+Proof. intros HS Hi. exact (HS i Hi). Qed.
 
 (* ---- passivity / losslessness of the network ---- *)
 Definition pflux (a b : waves K) (p : spin) : K := pw (a p) - pw (b p).
@@ -181,22 +166,22 @@ Proof.
   intros (_ & E2 & _) Hin. destruct (E2 x y Hin) as [H1 H2]. unfold pflux. rewrite H1, H2. ring.
 Qed.
 
-Lemma pflux_comp (c : comp K) a b : Sem (lst_of_comp c) a b ->
-  lsum K (comp_pins c) (pflux a b)
-  == bigsum (c_n c) (fun i => pw (a (c_id c, i)))
-   - bigsum (c_n c) (fun i => pw (mv (c_n c) (c_S c) (fun j => a (c_id c, j)) i)).
+Lemma pflux_comp (L : lst K) a b : Sem L a b ->
+  lsum K (l_pins L) (pflux a b)
+  == bigsum (length (l_pins L)) (fun i => pw (vin L a i))
+   - bigsum (length (l_pins L)) (fun i => pw (mv (length (l_pins L)) (l_S L) (vin L a) i)).
 Proof.
   intros HS. rewrite lsum_comp. unfold pflux. rewrite (bigsum_sub K KL).
-  rewrite (bigsum_ext K KL (c_n c) (fun i => pw (b (c_id c, i)))
-             (fun i => pw (mv (c_n c) (c_S c) (fun j => a (c_id c, j)) i))).
-  2:{ intros i Hi. rewrite (Sem_comp c a b i HS Hi). reflexivity. }
+  rewrite (bigsum_ext K KL (length (l_pins L)) (fun i => pw (b (nth i (l_pins L) dpin)))
+             (fun i => pw (mv (length (l_pins L)) (l_S L) (vin L a) i))).
+  2:{ intros i Hi. rewrite (Sem_comp L a b i HS Hi). reflexivity. }
   reflexivity.
 Qed.
 
 Theorem network_passive (net : netlist K) u a b :
-  NoDup (conn_ends (conns net)) -> NoDup (allpins (map lst_of_comp (comps net))) ->
-  (forall p, In p (conn_ends (conns net)) -> In p (allpins (map lst_of_comp (comps net)))) ->
-  (forall c, In c (comps net) -> mx_passive (c_n c) (c_S c)) ->
+  NoDup (conn_ends (conns net)) -> NoDup (allpins (comps net)) ->
+  (forall p, In p (conn_ends (conns net)) -> In p (allpins (comps net))) ->
+  (forall L, In L (comps net) -> mx_passive (length (l_pins L)) (l_S L)) ->
   wave_solution net u a b ->
   fnonneg K (lsum K (free_pins net) (pflux a b)).
 Proof.
@@ -207,16 +192,16 @@ Proof.
 Qed.
 
 Theorem network_lossless (net : netlist K) u a b :
-  NoDup (conn_ends (conns net)) -> NoDup (allpins (map lst_of_comp (comps net))) ->
-  (forall p, In p (conn_ends (conns net)) -> In p (allpins (map lst_of_comp (comps net)))) ->
-  (forall c, In c (comps net) -> mx_lossless (c_n c) (c_S c)) ->
+  NoDup (conn_ends (conns net)) -> NoDup (allpins (comps net)) ->
+  (forall p, In p (conn_ends (conns net)) -> In p (allpins (comps net))) ->
+  (forall L, In L (comps net) -> mx_lossless (length (l_pins L)) (l_S L)) ->
   wave_solution net u a b ->
   lsum K (free_pins net) (pflux a b) == 0.
 Proof.
   intros Hce Hnd Hends Hl W.
   rewrite <- (flux_balance net (pflux a b) Hce Hnd Hends (fun x y => pflux_pair net u a b x y W)).
   apply lsum_allpins_0. intros c Hc. destruct W as (E1 & _ & _).
-  rewrite (pflux_comp c a b (E1 c Hc)). rewrite (Hl c Hc (fun j => a (c_id c, j))). ring.
+  rewrite (pflux_comp c a b (E1 c Hc)). rewrite (Hl c Hc (vin c a)). ring.
 Qed.
 
 (* ---- in terms of the solved result ---- *)
@@ -239,7 +224,7 @@ Proof.
   destruct (solve_pins K net sched T H) as [NT PT].
   rewrite (lsum_perm K KL _ _ _ (result_pins_perm net sched T H)).
   rewrite <- lsum_sub. apply (lsum_ext K KL). intros p Hp. unfold pflux.
-  destruct W as (_ & _ & E3). rewrite (E3 p (proj2 (proj1 (PT p) Hp))).
+  destruct W as (_ & _ & E3). rewrite (E3 p (proj1 (proj1 (PT p) Hp)) (proj2 (proj1 (PT p) Hp))).
   pose proof (R (pos p (l_pins T)) (pos_lt p _ Hp)) as Rp. rewrite nth_pos in Rp by exact Hp.
   rewrite Rp. reflexivity.
 Qed.
@@ -248,7 +233,7 @@ Qed.
    pins does not exceed the power entering (any exposure subset) *)
 Theorem solve_passive (net : netlist K) sched T :
   solve net sched = Ok T ->
-  (forall c, In c (comps net) -> mx_passive (c_n c) (c_S c)) ->
+  (forall L, In L (comps net) -> mx_passive (length (l_pins L)) (l_S L)) ->
   forall u, fnonneg K (lsum K (l_pins T) (fun p => pw (ext (expo net) u p))
                        - lsum K (l_pins T) (fun p => pw (outw T (ext (expo net) u) p))).
 Proof.
@@ -261,7 +246,7 @@ Qed.
 (* all components lossless: total output power equals total input power *)
 Theorem solve_lossless (net : netlist K) sched T :
   solve net sched = Ok T ->
-  (forall c, In c (comps net) -> mx_lossless (c_n c) (c_S c)) ->
+  (forall L, In L (comps net) -> mx_lossless (length (l_pins L)) (l_S L)) ->
   forall u, lsum K (l_pins T) (fun p => pw (ext (expo net) u p))
             == lsum K (l_pins T) (fun p => pw (outw T (ext (expo net) u) p)).
 Proof.
@@ -277,21 +262,22 @@ Qed.
 (* ---- reciprocity ---- *)
 Definition rflux (a1 b1 a2 b2 : waves K) (p : spin) : K := a1 p * b2 p - a2 p * b1 p.
 
-Lemma rflux_comp (c : comp K) a1 b1 a2 b2 :
-  mx_reciprocal (c_n c) (c_S c) -> Sem (lst_of_comp c) a1 b1 -> Sem (lst_of_comp c) a2 b2 ->
-  lsum K (comp_pins c) (rflux a1 b1 a2 b2) == 0.
+Lemma rflux_comp (L : lst K) a1 b1 a2 b2 :
+  mx_reciprocal (length (l_pins L)) (l_S L) -> Sem L a1 b1 -> Sem L a2 b2 ->
+  lsum K (l_pins L) (rflux a1 b1 a2 b2) == 0.
 Proof.
   intros Hr S1 S2. rewrite lsum_comp. unfold rflux. rewrite (bigsum_sub K KL).
-  rewrite (bigsum_ext K KL (c_n c) (fun i => a1 (c_id c, i) * b2 (c_id c, i))
-             (fun i => bigsum (c_n c) (fun j => a1 (c_id c, i) * c_S c i j * a2 (c_id c, j)))).
-  2:{ intros i Hi. rewrite (Sem_comp c a2 b2 i S2 Hi). unfold mv.
-      rewrite <- (bigsum_scal_l K KL). apply (bigsum_ext K KL). intros j _. ring. }
-  rewrite (bigsum_ext K KL (c_n c) (fun i => a2 (c_id c, i) * b1 (c_id c, i))
-             (fun i => bigsum (c_n c) (fun j => a1 (c_id c, j) * c_S c j i * a2 (c_id c, i)))).
-  2:{ intros i Hi. rewrite (Sem_comp c a1 b1 i S1 Hi). unfold mv.
+  set (n := length (l_pins L)) in *.
+  rewrite (bigsum_ext K KL n (fun i => a1 (nth i (l_pins L) dpin) * b2 (nth i (l_pins L) dpin))
+             (fun i => bigsum n (fun j => vin L a1 i * l_S L i j * vin L a2 j))).
+  2:{ intros i Hi. rewrite (Sem_comp L a2 b2 i S2 Hi). unfold mv. fold n.
+      rewrite <- (bigsum_scal_l K KL). apply (bigsum_ext K KL). intros j _. unfold vin. ring. }
+  rewrite (bigsum_ext K KL n (fun i => a2 (nth i (l_pins L) dpin) * b1 (nth i (l_pins L) dpin))
+             (fun i => bigsum n (fun j => vin L a1 j * l_S L j i * vin L a2 i))).
+  2:{ intros i Hi. rewrite (Sem_comp L a1 b1 i S1 Hi). unfold mv. fold n.
       rewrite <- (bigsum_scal_l K KL). apply (bigsum_ext K KL). intros j Hj.
-      rewrite (Hr i j Hi Hj). ring. }
-  rewrite (bigsum_swap K KL (c_n c) (c_n c) (fun i j => a1 (c_id c, j) * c_S c j i * a2 (c_id c, i))). ring.
+      rewrite (Hr i j Hi Hj). unfold vin. ring. }
+  rewrite (bigsum_swap K KL n n (fun i j => vin L a1 j * l_S L j i * vin L a2 i)). ring.
 Qed.
 
 Lemma rflux_pair (net net' : netlist K) u1 u2 a1 b1 a2 b2 x y :
@@ -336,7 +322,7 @@ Qed.
 
 Theorem solve_reciprocal (net : netlist K) sched T :
   solve net sched = Ok T ->
-  (forall c, In c (comps net) -> mx_reciprocal (c_n c) (c_S c)) ->
+  (forall L, In L (comps net) -> mx_reciprocal (length (l_pins L)) (l_S L)) ->
   forall p q, In p (l_pins T) -> In q (l_pins T) -> coeff T p q == coeff T q p.
 Proof.
   intros H Hr p q Hp Hq.
@@ -359,8 +345,8 @@ Proof.
                 - lsum K (l_pins T) (fun x => (if spin_eqb p x then 1 else 0) * b1 x)).
   { rewrite <- lsum_sub. apply (lsum_ext K KL). intros x Hx. unfold rflux.
     destruct W1 as (_ & _ & E3). destruct W2 as (_ & _ & E3').
-    pose proof (proj2 (proj1 (PT x) Hx)) as Hn.
-    rewrite (E3 x Hn), (E3' x Hn). unfold ext; simpl. rewrite !orb_false_r. reflexivity. }
+    pose proof (proj2 (proj1 (PT x) Hx)) as Hn. pose proof (proj1 (proj1 (PT x) Hx)) as Hi.
+    rewrite (E3 x Hi Hn), (E3' x Hi Hn). unfold ext; simpl. rewrite !orb_false_r. reflexivity. }
   rewrite F1 in F0. rewrite (lsum_delta _ q b2 NT Hq), (lsum_delta _ p b1 NT Hp) in F0.
   rewrite <- (sound_col net sched T q a1 b1 p H W1 Hp Hq).
   rewrite <- (sound_col net sched T p a2 b2 q H W2 Hq Hp).
